@@ -241,6 +241,11 @@ class Execution:
         if c is not None:
             c.observe('read', name, value)
 
+    def shared_write(self, name, value):
+        c = self.me()
+        if c is not None:
+            c.observe('write', name, value)
+
     def sleep(self, seconds):
         c = self.me()
         if c is None:
@@ -252,7 +257,11 @@ class Execution:
         c.nobs = c.nobs_mark
         c.sleeping = True
         if getattr(self.sc, 'timed_sleep', False):
-            c.wake_at = ENV.now + seconds
+            import math
+            # a sleep always lets some time pass, at least the smallest
+            # representable step of the virtual clock
+            c.wake_at = max(ENV.now + seconds,
+                            math.nextafter(ENV.now, math.inf))
         c.observe('sleep')
         self.point(c, ('sleep', seconds))
         c.sleeping = False
@@ -305,7 +314,7 @@ class Execution:
         if timed:
             for c in parked:
                 if c.sleeping and c.wake_at is not None \
-                        and c.wake_at <= ENV.now + 1e-12:
+                        and c.wake_at <= ENV.now:
                     c.sleeping = False
         ready = [c for c in parked if not c.blocked and not c.sleeping]
         if ready:
@@ -315,7 +324,7 @@ class Execution:
             # every unfinished client sleeps: virtual time jumps to the
             # earliest wake-up
             ENV.now = min(c.wake_at for c in sleepers)
-            woke = [c for c in sleepers if c.wake_at <= ENV.now + 1e-12]
+            woke = [c for c in sleepers if c.wake_at <= ENV.now]
             for c in woke:
                 c.sleeping = False
             return woke
@@ -471,4 +480,7 @@ def explore(scenario_factory, bound=None, por=True, max_execs=None,
         finally:
             sc.teardown()
     part['states'] = len(visited) if visited is not None else part['transitions']
+    if not part['complete'] and not part['caps'] and not part['violations']:
+        raise RuntimeError('vacuous exploration: no execution completed (%s)'
+                           % (scenario_factory().describe(),))
     return part
